@@ -1332,8 +1332,8 @@ Lemma send_buffered_state e :
   e_next_uid e' = e_next_uid e /\ e_inbox e' = e_inbox e /\ e_clients e' = e_clients e /\ e_c2s e' = e_c2s e.
 Proof. cbn. repeat split; reflexivity. Qed.
 
-Lemma sframe_shape e tick dt ops parts emit e' o :
-  syse_step e (ESFrame tick dt ops parts emit) = Ok (e', o) ->
+Lemma sframe_shape e tick dt cleanup ops parts emit e' o :
+  syse_step e (ESFrame tick dt cleanup ops parts emit) = Ok (e', o) ->
   e_emitted e' = [] /\ e_next_uid e' = e_next_uid e /\ e_clients e' = e_clients e /\
   (exists live, e_uids e' = filter (fun kv => mem_N (fst kv) live) (e_uids e)) /\
   (e_buffer e' = [] \/ e_buffer e' = e_buffer e \/
@@ -1344,7 +1344,7 @@ Proof.
   - destruct (server_receive e) as [e0 from] eqn:Hsr.
     pose proof (server_receive_other e) as Ho. cbv zeta in Ho. rewrite Hsr in Ho. cbn [fst] in Ho.
     destruct Ho as [Hsys [Hu [Hn [_ [Hb [Hc _]]]]]].
-    destruct (sys_step (e_sys e0) (StSFrame tick dt false ops parts)) as [[y' o']| |]; cbn [bind]; try discriminate.
+    destruct (sys_step (e_sys e0) (StSFrame tick dt cleanup ops parts)) as [[y' o']| |]; cbn [bind]; try discriminate.
     match goal with |- context [send_or_buffer ?x] => set (e1 := x) end.
     destruct (send_or_buffer e1) as [e2 sent1] eqn:Hsob.
     pose proof (send_or_buffer_state e1) as Ho. cbv zeta in Ho. rewrite Hsob in Ho. cbn [fst snd] in Ho.
@@ -1364,7 +1364,7 @@ Proof.
       * eexists. rewrite Hu2. subst e1. cbn [e_uids]. rewrite Hu. reflexivity.
       * right. right. eexists. split; [rewrite Hb2; subst e1; cbn [e_buffer]; rewrite Hb; reflexivity|].
         intros ev Hev. apply filter_In in Hev. destruct Hev as [_ Hev]. destruct (independent (sev_ty ev)); [discriminate|reflexivity].
-  - destruct (sys_step (e_sys e) (StSFrame tick dt false ops parts)) as [[y' o']| |]; cbn [bind]; try discriminate.
+  - destruct (sys_step (e_sys e) (StSFrame tick dt cleanup ops parts)) as [[y' o']| |]; cbn [bind]; try discriminate.
     cbn [negb andb].
     destruct (sv_last_running (y_server (e_sys e))); intros H; injection H as <- _; unfold prune_uids;
       cbn [e_emitted e_next_uid e_clients e_uids e_buffer e_sys];
@@ -1411,7 +1411,7 @@ Qed.
 
 Theorem inv_step e st e' o : inv e -> syse_step e st = Ok (e', o) -> inv e'.
 Proof.
-  intros Hinv H. destruct st as [b|tick dt ops parts emit|slot ops emit|slot ty w drop|slot ty w].
+  intros Hinv H. destruct st as [b|tick dt cleanup ops parts emit|slot ops emit|slot ty w drop|slot ty w].
   - unfold syse_step in H.
     destruct (sys_step (e_sys e) b) as [[y' o']| |]; cbn [bind] in H; try discriminate.
     injection H as <- _.
@@ -1436,7 +1436,7 @@ Proof.
            ++ destruct (Hc _ _ E0) as [Hq Hem]. cbn [ce_queue ce_emitted]. auto.
            ++ split; [intros ty tk m []|reflexivity].
         -- rewrite al_get_insert_other by exact Hne. apply Hc.
-  - destruct (sframe_shape _ _ _ _ _ _ _ _ H) as [He' [Hn' [Hc' [[live Hu'] Hb']]]].
+  - destruct (sframe_shape _ _ _ _ _ _ _ _ _ H) as [He' [Hn' [Hc' [[live Hu'] Hb']]]].
     destruct Hinv as [Hb [He [Hu Hc]]]. split; [|split; [exact He'|split]].
     + intros set ev Hset Hev. destruct Hb' as [Hb' | [Hb' | [new [Hb' Hnew]]]]; rewrite Hb' in Hset.
       * destruct Hset.
@@ -1480,8 +1480,8 @@ Proof. induction 1 as [|e st e' o _ IH H]; [apply inv_init|eapply inv_step; eass
 
 (* every event message a server frame hands to the backend is either an independent event without tick
    or a dependent event stamped with the receiver's update tick as of this frame *)
-Theorem sframe_sent e tick dt ops parts emit e' o :
-  inv e -> syse_step e (ESFrame tick dt ops parts emit) = Ok (e', o) ->
+Theorem sframe_sent e tick dt cleanup ops parts emit e' o :
+  inv e -> syse_step e (ESFrame tick dt cleanup ops parts emit) = Ok (e', o) ->
   forall slot m, In (slot, m) (eo_sent o) ->
   (sm_tick m = None /\ independent (sm_ty m) = true) \/
   (exists cl, find_client (y_server (e_sys e')) slot = Some cl /\
@@ -1492,7 +1492,7 @@ Proof.
   - destruct (server_receive e) as [e0 from] eqn:Hsr.
     pose proof (server_receive_other e) as Ho. cbv zeta in Ho. rewrite Hsr in Ho. cbn [fst] in Ho.
     destruct Ho as [Hsys [Hu [Hn [_ [Hb [Hc _]]]]]].
-    destruct (sys_step (e_sys e0) (StSFrame tick dt false ops parts)) as [[y' o']| |]; cbn [bind]; try discriminate.
+    destruct (sys_step (e_sys e0) (StSFrame tick dt cleanup ops parts)) as [[y' o']| |]; cbn [bind]; try discriminate.
     match goal with |- context [send_or_buffer ?x] => set (e1 := x) end.
     destruct (send_or_buffer e1) as [e2 sent1] eqn:Hsob.
     pose proof (send_or_buffer_state e1) as Ho. cbv zeta in Ho. rewrite Hsob in Ho. cbn [fst snd] in Ho.
@@ -1514,7 +1514,7 @@ Proof.
       right. rewrite Hs3. apply (dependent_events_carry_update_tick e2 slot m Hdep2). rewrite Hsb. exact Hin.
     + intros H. injection H as <- <-. cbn [eo_sent]. intros slot m Hin. rewrite app_nil_r in Hin.
       left. apply (Hsent1 slot), Hin.
-  - destruct (sys_step (e_sys e) (StSFrame tick dt false ops parts)) as [[y' o']| |]; cbn [bind]; try discriminate.
+  - destruct (sys_step (e_sys e) (StSFrame tick dt cleanup ops parts)) as [[y' o']| |]; cbn [bind]; try discriminate.
     cbn [negb andb]. intros H. injection H as _ <-. cbn [eo_sent app]. intros slot m [].
 Qed.
 
@@ -1541,8 +1541,8 @@ Proof.
 Qed.
 
 (* the server never hands a client event to its logic twice, and reports the slot it arrived on *)
-Theorem sframe_from e tick dt ops parts emit e' o :
-  syse_step e (ESFrame tick dt ops parts emit) = Ok (e', o) ->
+Theorem sframe_from e tick dt cleanup ops parts emit e' o :
+  syse_step e (ESFrame tick dt cleanup ops parts emit) = Ok (e', o) ->
   (sv_running (y_server (e_sys e)) = true -> Permutation (eo_from o) (e_inbox e) /\ e_inbox e' = []) /\
   (sv_running (y_server (e_sys e)) = false -> eo_from o = []).
 Proof.
@@ -1550,7 +1550,7 @@ Proof.
   destruct (sv_running (y_server (e_sys e))) eqn:Hrb.
   - destruct (server_receive e) as [e0 from] eqn:Hsr.
     destruct (server_receive_conservation e) as [HP [Hi _]]. rewrite Hsr in HP, Hi. cbn [fst snd] in HP, Hi.
-    destruct (sys_step (e_sys e0) (StSFrame tick dt false ops parts)) as [[y' o']| |]; cbn [bind]; try discriminate.
+    destruct (sys_step (e_sys e0) (StSFrame tick dt cleanup ops parts)) as [[y' o']| |]; cbn [bind]; try discriminate.
     match goal with |- context [send_or_buffer ?x] => set (e1 := x) end.
     destruct (send_or_buffer e1) as [e2 sent1] eqn:Hsob.
     pose proof (send_or_buffer_state e1) as Ho. cbv zeta in Ho. rewrite Hsob in Ho. cbn [fst snd] in Ho.
@@ -1564,7 +1564,7 @@ Proof.
       unfold prune_uids. cbn [e_inbox]. rewrite Hi3, Hi2. subst e1. cbn [e_inbox]. rewrite Hi. reflexivity.
     + intros H. injection H as <- <-. cbn [eo_from]. split; [|discriminate]. intros _. split; [exact HP|].
       unfold prune_uids. cbn [e_inbox]. rewrite Hi2. subst e1. cbn [e_inbox]. rewrite Hi. reflexivity.
-  - destruct (sys_step (e_sys e) (StSFrame tick dt false ops parts)) as [[y' o']| |]; cbn [bind]; try discriminate.
+  - destruct (sys_step (e_sys e) (StSFrame tick dt cleanup ops parts)) as [[y' o']| |]; cbn [bind]; try discriminate.
     intros H. injection H as _ <-. cbn [eo_from]. split; [discriminate|reflexivity].
 Qed.
 
@@ -1574,13 +1574,13 @@ Theorem buffer_step_mono e st e' o :
   syse_step e st = Ok (e', o) ->
   forall set', In set' (e_buffer e') ->
   (exists set, In set (e_buffer e) /\ bs_events set' = bs_events set /\ incl (bs_excluded set) (bs_excluded set')) \/
-  (bs_excluded set' = [] /\ exists tick dt ops parts emit, st = ESFrame tick dt ops parts emit).
+  (bs_excluded set' = [] /\ exists tick dt cleanup ops parts emit, st = ESFrame tick dt cleanup ops parts emit).
 Proof.
   intros H set' Hin.
   assert (Hsame : e_buffer e' = e_buffer e ->
           exists set, In set (e_buffer e) /\ bs_events set' = bs_events set /\ incl (bs_excluded set) (bs_excluded set')).
   { intros E. rewrite E in Hin. exists set'. split; [exact Hin|]. split; [reflexivity|apply incl_refl]. }
-  destruct st as [b|tick dt ops parts emit|slot ops emit|slot ty w drop|slot ty w].
+  destruct st as [b|tick dt cleanup ops parts emit|slot ops emit|slot ty w drop|slot ty w].
   - left. unfold syse_step in H.
     destruct (sys_step (e_sys e) b) as [[y' o']| |]; cbn [bind] in H; try discriminate.
     injection H as <- _.
@@ -1590,13 +1590,13 @@ Proof.
     destruct (find_client (y_server y') slot); [|apply Hsame; reflexivity].
     cbn [e_buffer set_sys] in Hin. apply in_map_iff in Hin. destruct Hin as [set [<- Hset]].
     exists set. split; [exact Hset|]. split; [reflexivity|]. cbn [bs_excluded]. apply incl_appl, incl_refl.
-  - destruct (sframe_shape _ _ _ _ _ _ _ _ H) as [_ [_ [_ [_ Hb']]]].
+  - destruct (sframe_shape _ _ _ _ _ _ _ _ _ H) as [_ [_ [_ [_ Hb']]]].
     destruct Hb' as [Hb' | [Hb' | [new [Hb' _]]]].
     + rewrite Hb' in Hin. destruct Hin.
     + left. apply Hsame, Hb'.
     + rewrite Hb' in Hin. apply in_app_or in Hin. destruct Hin as [Hin | [<- | []]].
       * left. exists set'. split; [exact Hin|]. split; [reflexivity|apply incl_refl].
-      * right. split; [reflexivity|]. exists tick, dt, ops, parts, emit. reflexivity.
+      * right. split; [reflexivity|]. exists tick, dt, cleanup, ops, parts, emit. reflexivity.
   - left. apply Hsame. apply (cframe_shape _ _ _ _ _ _ H).
   - left. apply Hsame. destruct (deliver_s2c_step _ _ _ _ _ _ _ H) as [? [? [_ [_ [_ [_ [_ [_ [_ [_ [_ [_ [Hb _]]]]]]]]]]]]].
     exact Hb.
@@ -1618,8 +1618,8 @@ Qed.
 Theorem reachable_buffer_dependent c n e : reachable c n e -> buffer_dependent e.
 Proof. intros Hr. apply (reachable_inv _ _ _ Hr). Qed.
 
-Theorem sframe_sent_reachable c n e tick dt ops parts emit e' o :
-  reachable c n e -> syse_step e (ESFrame tick dt ops parts emit) = Ok (e', o) ->
+Theorem sframe_sent_reachable c n e tick dt cleanup ops parts emit e' o :
+  reachable c n e -> syse_step e (ESFrame tick dt cleanup ops parts emit) = Ok (e', o) ->
   forall slot m, In (slot, m) (eo_sent o) ->
   (sm_tick m = None /\ independent (sm_ty m) = true) \/
   (exists cl, find_client (y_server (e_sys e')) slot = Some cl /\
